@@ -169,11 +169,12 @@ struct C07 : vr::Driver {
       std::string hj;
       for (auto& h : c.base) hj += (hj.empty() ? "" : ",") + hookJson(h);
       s.hooksJson = hj;
+      std::unique_ptr<Adaptor> adOwner;  // synchronous drop-in adaptor, owned here and driven at the start of every tick
       Adaptor* ad = nullptr;
-      s.afterMake = [&](Oomd::Oomd& o) {
+      s.afterMake = [&](Oomd::Oomd&) {
         if (c.dropins.empty()) return;
-        ad = new Adaptor(world::cgfs(), *o.ir_root_, *o.engine_);
-        o.fs_drop_in_service_.reset(ad);
+        adOwner = std::make_unique<Adaptor>(world::cgfs(), *sim::lastIr, *sim::lastEngine);
+        ad = adOwner.get();
         for (auto& d : c.dropins) {
           std::string j = "{\"rulesets\":[],\"prekill_hooks\":[";
           for (size_t k = 0; k < d.size(); k++) j += (k ? "," : "") + hookJson(d[k]);
@@ -189,6 +190,7 @@ struct C07 : vr::Driver {
       std::set<int> newPids;
       int nextNew = 9000;
       s.onTick = [&](int k) {
+        if (ad) ad->updateDropIns();
         if (k < 2) return;
         int e = ch.choose(4);
         if (e == 0) return;
